@@ -61,6 +61,7 @@ REVERT_EXPECT: Dict[str, List[Tuple[str, str]]] = {
     "23a8686": [("C14", "K9.truncation-bound")],
     "d569ba9": [("C15", "K8.rebuild-agreement")],
     "c5c3f8c": [("C13", "K11.protocol")],
+    "e83ed45": [("C11", "K2.class-invariant")],
 }
 
 
